@@ -5,7 +5,7 @@
 # usage: tools/seed_eval_scratch.sh <patch.diff> [C01 C05 ...]
 patch=$(readlink -f "$1"); shift
 ids=${@:-$(seq -f "C%02g" 1 20)}
-wt=/tmp/wt/ev
+wt=${SCRATCH_WT:-/tmp/wt/ev}
 [ -d $wt ] || git -C /repo worktree add -q --detach $wt HEAD
 cd $wt || exit 2
 git checkout -q -- . ; git checkout -q --detach $(git -C /repo rev-parse HEAD)
